@@ -196,5 +196,10 @@ func genCLICases(tier string, emit func(op string, fields ...string)) {
 		emit("CLI", hexs("U | count;\n"+long+";\nV | count;\n"), "stdin")
 		emit("CLI", hexs("U | count;\n"+long), "stdin")
 		emit("CLI", hexs(long+";\n"), "file")
+		// an unterminated statement is pending when reading stops: the read error is logged first, then the
+		// pending statement is compiled (two errors when it is invalid)
+		emit("CLI", hexs("U | count;\nV | where\n"+long), "stdin")
+		emit("CLI", hexs("U | count;\nV | count\n"+long), "stdin")
+		emit("CLI", hexs("let n = 1;\nV | take n\n"+long), "file")
 	}
 }
